@@ -15,6 +15,7 @@ type c07Entry struct {
 	tag  string
 	body string
 	hdr  string // value of header H in effect for this entry ("" = none)
+	host string // value of an in-file [Host: v] line in effect ("" = none)
 }
 
 func c07Byte(name string, lo, hi byte) string {
@@ -44,6 +45,7 @@ func c07Check(dec config.DecoderType, file string, want []c07Entry, passes int) 
 		vCheck("F2.tag", a.Tag() == w.tag)
 		vCheck("F2.path", req.URL.Path == w.uri)
 		vCheck("F2.header.in.effect", req.Header.Get("H") == w.hdr)
+		vCheck("F2.host.in.effect", req.Host == w.host)
 		if dec == config.DecoderURIPost {
 			vCheck("F2.method.post", req.Method == "POST")
 			var got []byte
@@ -100,14 +102,19 @@ func HarnessC07Uri() {
 	if vNondetBool("blankFirst") {
 		file += "\n"
 	}
-	hdr := ""
+	hdr, host := "", ""
 	for i := 0; i < E; i++ {
 		if i == 1 && vNondetBool("hdrLine") {
 			hv := c07Byte("hv", 'a', 'z')
-			file += "[H: " + hv + "]\n"
-			hdr = hv
+			if vNondetBool("hostLine") {
+				file += "[Host: " + hv + "]\n"
+				host = hv
+			} else {
+				file += "[H: " + hv + "]\n"
+				hdr = hv
+			}
 		}
-		e := c07Entry{uri: "/" + c07Byte("u", 'a', 'z'), hdr: hdr}
+		e := c07Entry{uri: "/" + c07Byte("u", 'a', 'z'), hdr: hdr, host: host}
 		line := e.uri
 		if vNondetBool("hasTag") {
 			e.tag = c07Byte("t", 'a', 'z')
@@ -139,15 +146,20 @@ func HarnessC07Uripost() {
 	if vNondetBool("blankFirst") {
 		file += "\n"
 	}
-	hdr := ""
+	hdr, host := "", ""
 	for i := 0; i < E; i++ {
 		if i == 1 && vNondetBool("hdrLine") {
 			hv := c07Byte("hv", 'a', 'z')
-			file += "[H: " + hv + "]\n"
-			hdr = hv
+			if vNondetBool("hostLine") {
+				file += "[Host: " + hv + "]\n"
+				host = hv
+			} else {
+				file += "[H: " + hv + "]\n"
+				hdr = hv
+			}
 		}
 		bl := int(vConcretize(vNondetInt("bodyLen", 0, 2)))
-		e := c07Entry{uri: "/" + c07Byte("u", 'a', 'z'), hdr: hdr, body: vNondetString("b", bl)}
+		e := c07Entry{uri: "/" + c07Byte("u", 'a', 'z'), hdr: hdr, host: host, body: vNondetString("b", bl)}
 		line := string(rune('0'+bl)) + " " + e.uri
 		if vNondetBool("hasTag") {
 			e.tag = c07Byte("t", 'a', 'z')
@@ -176,7 +188,7 @@ func HarnessC07Raw() {
 	var want []c07Entry
 	file := ""
 	for i := 0; i < E; i++ {
-		e := c07Entry{uri: "/" + c07Byte("u", 'a', 'z'), tag: c07Byte("t", 'a', 'z')}
+		e := c07Entry{uri: "/" + c07Byte("u", 'a', 'z'), tag: c07Byte("t", 'a', 'z'), host: "h"}
 		req := "GET " + e.uri + " HTTP/1.1\r\nHost: h\r\n\r\n"
 		file += itoa09x(len(req)) + " " + e.tag + "\n" + req
 		last := i == E-1
